@@ -17,6 +17,8 @@ from sx import env as E
 from sx.engine import Ctx, SBool, SInt, SXControl, SymVal, lift, truthy, vapp, veq
 
 RES_NAMES = {"t": "thread", "m": "main-thread", "a": "async-thread"}
+FLAG_CONSTS = {"NONE": None, "TRUE": True}
+FLAG_SOURCES = ("IN", "NONE", "TRUE")
 REAL: Dict[str, Any] = {"schedule": None, "world": None}  # set by replay_real(): run on the real pool / loop following this schedule
 
 
@@ -348,14 +350,15 @@ def run_sched(cfg: Cfg, c: Ctx) -> Any:
     act_indexed = False
     if cfg.activation and N >= 2:
         # the flag of one node is the result of an earlier node or the (symbolic) DAG input
-        pairs = [(j, i) for i in range(N) for j in range(i)] + [(-1, i) for i in range(N)]
+        # ... or a constant written in the describing function: None (falsy: the node is deactivated) or True
+        pairs = [(j, i) for i in range(N) for j in range(i)] + [(-1, i) for i in range(N)] + [(-2, i) for i in range(N)] + [(-3, i) for i in range(N)]
         k = c.choose(len(pairs) + 1, "act")
         if k:
             j, i = pairs[k - 1]
-            act[labels[i]] = labels[j] if j >= 0 else "IN"
-            c.assume(not (cfg.setup_call and j < 0))  # (a setup node cannot depend on a DAG argument)
-            act_indexed = bool(c.choose(2, "act_indexed"))  # twz_active=flag[0] instead of twz_active=flag
-    alldeps = {l: list(dict.fromkeys(deps[l] + ([act[l]] if l in act and act[l] != "IN" else []))) for l in labels}
+            act[labels[i]] = labels[j] if j >= 0 else {-1: "IN", -2: "NONE", -3: "TRUE"}[j]
+            c.assume(not (cfg.setup_call and j == -1))  # (a setup node cannot depend on a DAG argument)
+            act_indexed = bool(j >= -1 and c.choose(2, "act_indexed"))  # twz_active=flag[0] instead of twz_active=flag
+    alldeps = {l: list(dict.fromkeys(deps[l] + ([act[l]] if l in act and act[l] not in FLAG_SOURCES else []))) for l in labels}
     # ---- attributes
     res: Dict[str, str] = {}
     n_async = 0
@@ -508,7 +511,7 @@ def run_sched(cfg: Cfg, c: Ctx) -> Any:
         for l in labels:
             args, kw = call_shape(l, x, r)
             if l in act:
-                flag = x if act[l] == "IN" else r[act[l]]
+                flag = FLAG_CONSTS[act[l]] if act[l] in FLAG_CONSTS else (x if act[l] == "IN" else r[act[l]])
                 if l == wrapped and inner_flag:
                     args = args + [flag]
                 else:
@@ -579,7 +582,7 @@ def run_sched(cfg: Cfg, c: Ctx) -> Any:
         args, kw = call_shape(l, X, ref)
         active = True
         if l in act:
-            flag = X if act[l] == "IN" else ref[act[l]]
+            flag = FLAG_CONSTS[act[l]] if act[l] in FLAG_CONSTS else (X if act[l] == "IN" else ref[act[l]])
             if act_indexed and flag is not None:
                 flag = flag[0]
             active = bool(flag) if flag is not None else False
